@@ -56,6 +56,10 @@ def main():
     ms = mutants()
     random.Random(7).shuffle(ms)
     ms = ms[:int(os.environ.get("MM_SAMPLE", "150"))]
+    only = os.environ.get("MM_ONLY")
+    if only:
+        keys = {l.strip() for l in open(only) if l.strip()}
+        ms = [m for m in mutants() if f"{m[0]}:{m[1]+1}:{m[2]}" in keys]
     ms = [m for j, m in enumerate(ms) if j % N == K]
     done = set()
     if OUT.exists():
